@@ -356,7 +356,16 @@ func (c *Ctx) footprintEntries(v *Val, qvars []Term, guard Term, src string) []M
 	}
 	if u, ok := v.Typ.Underlying().(*types.Interface); ok {
 		var out []ModEntry
+		// dynamic types outside the interface invariant (`covers`) have no footprint through the interface: the
+		// invariant excludes them, and values of those types are handled through their concrete type only
+		var ipi *PkgInfo
+		if nt, ok := v.Typ.(*types.Named); ok && nt.Obj().Pkg() != nil {
+			ipi = c.E.ByPath[nt.Obj().Pkg().Path()]
+		}
 		for _, n := range c.E.implementers(u) {
+			if ipi != nil && ipi.Spec != nil && hasCovers(ipi) && !c.E.invCovers(ipi, n) {
+				continue
+			}
 			g := And(guard, Eq(App(SInt, "dyntype", v.T), IntLit(int64(c.E.typeTag(namedKey(n))))))
 			out = append(out, expand(n, g)...)
 		}
@@ -1199,4 +1208,13 @@ func (c *Ctx) framePreserved(keep []ModEntry) {
 			}()
 		}
 	}
+}
+
+func hasCovers(pi *PkgInfo) bool {
+	for n := range pi.Spec.Funs {
+		if strings.HasPrefix(n, "Covers$") {
+			return true
+		}
+	}
+	return false
 }
